@@ -3,6 +3,7 @@ use serde_json::Value;
 
 pub mod c01;
 pub mod c02;
+pub mod c03;
 pub mod c04;
 pub mod c05;
 pub mod c06;
@@ -21,6 +22,7 @@ pub fn lookup(id: &str) -> Option<Entry> {
     Some(match id {
         "C01" => Entry { id: "C01", check: c01::check, replay: c01::replay },
         "C02" => Entry { id: "C02", check: c02::check, replay: c02::replay },
+        "C03" => Entry { id: "C03", check: c03::check, replay: c03::replay },
         "C04" => Entry { id: "C04", check: c04::check, replay: c04::replay },
         "C05" => Entry { id: "C05", check: c05::check, replay: c05::replay },
         "C06" => Entry { id: "C06", check: c06::check, replay: c06::replay },
